@@ -186,7 +186,7 @@ func c10(c *Ctx) {
 				}
 				for _, in := range b.Instrs {
 					if ret, ok := in.(*ssa.Return); ok {
-						if k, ok := ret.Results[0].(*ssa.Const); ok {
+						if k, ok := an.RetVal(ret, 0).(*ssa.Const); ok {
 							res[t] += k.Value.String()
 						}
 					}
@@ -229,7 +229,7 @@ func c10(c *Ctx) {
 			for _, b := range gm.Blocks {
 				for _, in := range b.Instrs {
 					if ret, ok := in.(*ssa.Return); ok {
-						v, okv := an.EvalInt(ret.Results[0], func(x ssa.Value) (int64, bool) {
+						v, okv := an.EvalInt(an.RetVal(ret, 0), func(x ssa.Value) (int64, bool) {
 							if x == unix {
 								return t, true
 							}
@@ -247,6 +247,7 @@ func c10(c *Ctx) {
 	}
 
 	// ---- R10.A ----------------------------------------------------------------------------------
+	c.everyMessageDispatched("R10.A")
 	if pr := c.fn("R10.A", load.RootMod, "*MTProto", "processResponse"); pr != nil {
 		var test *an.Cond
 		for _, i := range an.Ifs(pr) {
@@ -268,7 +269,7 @@ func c10(c *Ctx) {
 			var nilRets []ssa.Instruction
 			for _, b := range pr.Blocks {
 				for _, in := range b.Instrs {
-					if ret, ok := in.(*ssa.Return); ok && len(ret.Results) == 1 && an.IsNilConst(ret.Results[0]) {
+					if ret, ok := in.(*ssa.Return); ok && len(ret.Results) == 1 && an.IsNilConst(an.RetVal(ret, 0)) {
 						nilRets = append(nilRets, ret)
 					}
 				}
@@ -312,5 +313,87 @@ func c10(c *Ctx) {
 			}
 			r.Check(rec, "R10.A", "ack:containers-recurse", c.pos(pr.Pos()), "container items are handed to processResponse itself, so each gets its own parity test")
 		}
+	}
+}
+
+// everyMessageDispatched: (1) every successful exit of readMsg after the transport delivered a message passes the
+// hand-over of that message (the service-channel send or the processResponse call); (2) every successful exit of
+// processResponse comes after its dispatch (the type switch on the decoded object).  A filter in front of either -
+// "ignore ids that are not newer", "ignore what nobody waits for" - silently drops results, acknowledgements and
+// notifications of messages a conformant server sent.
+func (c *Ctx) everyMessageDispatched(rule string) {
+	r := c.R
+	if rm := c.fn(rule, load.RootMod, "*MTProto", "readMsg"); rm != nil {
+		var read ssa.Instruction
+		var handovers []ssa.Instruction
+		for _, cs := range an.Calls(rm) {
+			switch {
+			case cs.Common.IsInvoke() && cs.Common.Method.Name() == "ReadMsg":
+				read = cs.Instr
+			case strings.HasSuffix(cs.Name, "MTProto).processResponse"):
+				handovers = append(handovers, cs.Instr)
+			}
+		}
+		for _, b := range rm.Blocks {
+			for _, in := range b.Instrs {
+				if snd, ok := in.(*ssa.Send); ok {
+					handovers = append(handovers, snd)
+				}
+			}
+		}
+		if read == nil || len(handovers) == 0 {
+			r.Undecide(rule, "dispatch:read-message-is-handed-on", c.pos(rm.Pos()), "ReadMsg call or hand-over not found in readMsg")
+		} else {
+			var bad []string
+			n := 0
+			for _, b := range rm.Blocks {
+				ret, ok := b.Instrs[len(b.Instrs)-1].(*ssa.Return)
+				if !ok || len(ret.Results) != 1 || !an.IsNilConst(an.RetVal(ret, 0)) || !an.InstrDominates(read, ret) {
+					continue
+				}
+				n++
+				passed := false
+				for _, h := range handovers {
+					if an.InstrDominates(h, ret) {
+						passed = true
+					}
+				}
+				if !passed {
+					bad = append(bad, "the successful exit at "+c.pos(ret.Pos())+" passes neither processResponse nor the service-channel send")
+				}
+			}
+			r.Check(len(bad) == 0 && n > 0, rule, "dispatch:read-message-is-handed-on", c.pos(rm.Pos()), sprintf("%d successful exit(s) of readMsg after a message was read; %s", n, strings.Join(bad, "; ")))
+		}
+	}
+	if pr := c.fn(rule, load.RootMod, "*MTProto", "processResponse"); pr != nil {
+		// the dispatch: the first type assertion of the decoded object (the head of the type switch)
+		var head ssa.Instruction
+		for _, b := range pr.Blocks {
+			for _, in := range b.Instrs {
+				if ta, ok := in.(*ssa.TypeAssert); ok && ta.CommaOk && head == nil {
+					head = ta
+				}
+			}
+			if head != nil {
+				break
+			}
+		}
+		if head == nil {
+			r.Undecide(rule, "dispatch:every-success-exit-after-the-switch", c.pos(pr.Pos()), "the type switch of processResponse was not found")
+			return
+		}
+		var bad []string
+		n := 0
+		for _, b := range pr.Blocks {
+			ret, ok := b.Instrs[len(b.Instrs)-1].(*ssa.Return)
+			if !ok || len(ret.Results) != 1 || !an.IsNilConst(an.RetVal(ret, 0)) {
+				continue
+			}
+			n++
+			if !an.InstrDominates(head, ret) {
+				bad = append(bad, "the successful exit at "+c.pos(ret.Pos())+" is taken before the object is dispatched")
+			}
+		}
+		r.Check(len(bad) == 0 && n > 0, rule, "dispatch:every-success-exit-after-the-switch", c.pos(pr.Pos()), sprintf("%d successful exit(s) of processResponse; %s", n, strings.Join(bad, "; ")))
 	}
 }
